@@ -57,6 +57,11 @@ def run(ck):
             if cs.args and not body.is_cleanup(cs.bb) and cs.name in ("clear", "truncate", "drain", "retain", "retain_mut", "remove", "pop", "split_off", "dedup_by", "pop_front", "pop_back") and T.path_has(body, cs.args[0], ".idles") and cs.f and ("Vec" in cs.f["path"] or "VecDeque" in cs.f["path"]):
                 if cs.name in ("pop_front",) and body.qual.startswith("EventLoop::dispatch_idles"):
                     continue
+                if cs.name in TAKE and body.qual == "EventLoop::dispatch_idles":
+                    # the take idiom of clause 2 (`drain(..)` / `split_off(0)` of the whole list, iterated there)
+                    tk = [c for c in T.calls(body, name=TAKE) if T.path_has(body, c.args[0], ".idles")]
+                    if tk and tk[0].bb == cs.bb:
+                        continue
                 ck.violation("1", "T7-who-may-call", body, "idle-list-discarded:%s" % cs.name, "queued idle callbacks are removed from the pending list with `%s` without being run: an idle that was inserted and not cancelled is lost" % cs.name, site=body.where(cs.bb))
     extra = writers - {"LoopHandle::insert_idle", "EventLoop::dispatch_idles", "EventLoop::try_new"}
     ck.verdict(not extra, "1", "T7-who-may-write", "loop_logic::LoopInner", "writers-of:idles", "the idle list is written only by insert_idle (append) and dispatch_idles (take): %s" % sorted(writers), "the idle list is also written by %s" % sorted(extra), site="src/loop_logic.rs")
@@ -76,7 +81,7 @@ def run(ck):
         if lp:
             h, blk = lp[0]
             hc = di.call_at(h)
-            it_ok = hc is not None and hc.name == "next" and T.resolves_to_call(di, hc.args[0], [takes[0].bb])
+            it_ok = hc is not None and hc.name == "next" and T.same_sequence_as_call(di, hc.args[0], [takes[0].bb])
             if not it_ok and hc is not None and hc.name == "next":
                 # `for idle in taken.drain(..)`: a full drain of the taken vector is the same iteration
                 for r, p_ in di.resolve(hc.args[0]):
